@@ -1,7 +1,7 @@
 """C18 — Schwab conversion keeps CGT-relevant rows and emits valid DSL (structural clauses)."""
 import re
 
-from mir import Terms, parse_callee, show, op_place, op_const, place_proj, subterms, subst
+from mir import Terms, parse_callee, show, op_place, op_const, place_proj, subterms, subst, expand_closures
 from flow import format_calls, template_text, root_of_operand, body_is_external, is_slice_sort, _const_through
 from grammar import Grammar, Hole, tokenize, TokenMatcher
 import rules.c14 as c14
@@ -95,7 +95,7 @@ def _place_type(F, b, place):
     return ty.split("<")[0]
 
 
-def row_loop(F):
+def row_loop_old(F):
     """the function that loops over parsed rows and pushes output rows (CgtTransaction aggregates)"""
     out = []
     for b in conv_bodies(F):
@@ -105,100 +105,120 @@ def row_loop(F):
     return out
 
 
+def row_loops(F):
+    """(body, header, blocks) of every loop that consumes parsed rows (`next()` on an owning iterator of the row item type)"""
+    out = []
+    for b in conv_bodies(F):
+        for h, blks in b.loops():
+            for x in blks:
+                t = b.term(x)
+                if t["k"] == "call" and parse_callee(t["callee"])[2] == "next":
+                    aty = " ".join(t.get("aty") or [])
+                    if "SchwabTransactionsItem" in aty and "IntoIter" in aty:
+                        out.append((b, h, blks))
+    return out
+
+
 def arm_accounting(F, rep):
-    rl = row_loop(F)
+    """One iteration of the row loop is synthesised path by path (lib/effsyn.py) through the loop body and the converter
+    helpers it calls — whether the arms push rows themselves, or return an outcome value that a recorder pushes."""
+    from effsyn import EffSyn, TooManyPaths
+    rl = row_loops(F)
     if len(rl) != 1:
-        rep.unresolved("R2", "ROWLOOP", f"{len(rl)} functions build ≥3 output rows inside a loop")
+        rep.unresolved("R2", "ROWLOOP", f"{len(rl)} loops consume the parsed rows")
         return
-    b = rl[0]
-    tb = Terms(F, b, inline_depth=0)
+    b, header, blks = rl[0]
     rep.count("row_loop", b.short)
-    # the switch on the parsed-row enum (SchwabTransaction) inside the loop
-    sw = None
-    for i, t in b.terms_of_kind("switch"):
-        p = op_place(t["discr"])
-        d = b.defs().get(p["l"], []) if p else []
-        if len(d) == 1 and d[0][0] == "assign" and d[0][3]["rv"]["k"] == "discr":
-            ety = _place_type(F, b, d[0][3]["rv"]["p"])
-            if ety.endswith("::SchwabTransaction") and len(t["targets"]) >= 8 and len({x for _, x in t["targets"]}) > 2:
-                sw = (i, t, ety)
-    if sw is None:
-        rep.unresolved("R2", "row-match", "no match on the parsed-row enum with ≥ 8 arms inside the row loop")
+    # helpers worth following: those that can change the caller's state (`&mut` parameter) or that return a value wrapping an
+    # output row; pure lookups (the awards lookup, parsers) stay opaque calls
+    row_types = {"CgtTransaction"} | {p.split("::")[-1] for p, a in F.adts.items() if a["crate"] == "cgt_converter" and
+                                      any("CgtTransaction" in f["ty"] for v in a["variants"] for f in v["fields"])}
+    def helper_ok(hb):
+        if hb.crate != "cgt_converter" or not P.user_written(F, hb):
+            return False
+        return any(hb.local_ty(k + 1).replace("'_ ", "").startswith("&mut") for k in range(hb.argc)) or any(rt in hb.ret for rt in row_types)
+    es = EffSyn(F, tracked=lambda ty: "CgtTransaction" in ty or "alloc::string::String" in ty, place_type=_place_type, helper_ok=helper_ok)
+    try:
+        alts = es.run(b, start=header, stops=(header,))
+    except TooManyPaths as e:
+        rep.unresolved("R2", "row-paths", str(e))
         return
-    i, t, ety = sw
-    vnames = [v["name"] for v in F.adts[ety]["variants"]]
-    out_vec = None
-    pushes = []
-    for j, u in b.calls():
-        if parse_callee(u["callee"])[2] == "push" and "CgtTransaction" in " ".join(u.get("aty") or []):
-            r = root_of_operand(b, u["args"][0])
-            pushes.append((j, u, r[0] if r else None))
-    loop = None
-    for h, blks in b.loops():
-        if i in blks and (loop is None or len(blks) < len(loop[1])):
-            loop = (h, blks)
-    if loop is None:
-        rep.unresolved("R2", "loop", "row match is not inside a loop")
+    rep.count("row_loop_paths", len(alts))
+
+    def label_of(a):
+        item = tx = None
+        for cond, val, ety, vn in a.guards:
+            if ety and ety.endswith("::SchwabTransactionsItem") and item is None and isinstance(vn, str):
+                item = vn
+            if ety and ety.endswith("::SchwabTransaction") and tx is None and vn and val != "otherwise":
+                tx = vn if isinstance(vn, str) else "|".join(x for x in vn if x)
+        return tx or (item if item and item != "Known" else None)
+    by_label = {}
+    for a in alts:
+        lb = label_of(a)
+        if lb:
+            by_label.setdefault(lb, []).append(a)
+    if len([l for l in by_label if l != "Unknown"]) < 8:
+        rep.unresolved("R2", "row-match", f"only {len(by_label)} row kinds are distinguished inside the row loop")
         return
-    header = loop[0]
-    entries = {}
-    for v, tgt in t["targets"]:
-        entries.setdefault(tgt, []).append(vnames[int(v)] if int(v) < len(vnames) else v)
-    counted = _counter_increments(b)
-    for tgt, names in sorted(entries.items()):
-        arm = {x for x in b.reach_from(tgt) if b.dominates(tgt, x) and x in loop[1]}
-        arm_pushes = [(j, u) for j, u, r in pushes if j in arm]
-        label = "|".join(names)
+    rows_of = lambda a: [p for p in a.pushes if "CgtTransaction" in p[4]]
+    for label, paths in sorted(by_label.items()):
+        names = label.split("|")
+        cont = [a for a in paths if a.exit == "stop"]
+        site = b.loc()
         trade_like = any(n in ("Buy", "Sell", "StockPlanActivity") for n in names)
         if trade_like:
-            ok = len(arm_pushes) == 1
-            detail = f"{len(arm_pushes)} output-row pushes in this arm"
-            if ok:
-                pj = arm_pushes[0][0]
-                # every path from the arm entry back to the loop header passes the push (error returns leave the loop)
-                ok = header not in b.reach_from(tgt, removed_blocks=(pj,)) or not (header in b.reach_from(tgt))
-                detail = "exactly one output row is pushed on every path that continues the loop" if ok else \
-                    "a path through this arm continues the loop without pushing an output row: the trade would vanish"
-            rep.ob("R2", f"{label}:one-row", ok, detail, b.loc(b.term(tgt).get("sp") or _first_sp(b, tgt)), key=f"R2:{label}:one-row")
-            # provenance of the pushed row
-            for j, u in arm_pushes:
-                row = tb.operand(u["args"][1])
-                if not (isinstance(row, tuple) and row and row[0] == "agg"):
-                    rep.ob("R2", f"{label}:row-shape", False, f"pushed value is not a row literal: {show(row)[:80]}", b.loc(u["sp"]),
-                           key=f"R2:{label}:row-shape")
-                    continue
-                want_variant = "Sell" if names == ["Sell"] else "Buy"
-                rep.ob("R2", f"{label}:row-kind", row[2] == want_variant,
-                       f"{label} row becomes a {row[2].upper()} line" if row[2] == want_variant else
-                       f"{label} input row is emitted as CgtTransaction::{row[2]}", b.loc(u["sp"]), key=f"R2:{label}:row-kind")
-                for fname, fterm in row[3]:
-                    if fname == "comment":
+            bad = [a for a in cont if len(rows_of(a)) != 1 or rows_of(a)[0][0] != "push"]
+            ok = bool(cont) and not bad
+            rep.ob("R2", f"{label}:one-row", ok, "exactly one output row is pushed on every path that continues the loop" if ok else
+                   (f"a path through this arm continues the loop with {len(rows_of(bad[0]))} output rows pushed: the trade would vanish (or be doubled)"
+                    if bad else "no path through this arm continues the loop"), rows_of(cont[0])[0][3] if cont and rows_of(cont[0]) else site,
+                   key=f"R2:{label}:one-row")
+            seen_rows = set()
+            for a in cont:
+                for kind, vec, row, rsite, ety in rows_of(a):
+                    if kind != "push" or row in seen_rows:
                         continue
-                    okf, why = _field_prov(fname, fterm, names)
-                    rep.ob("R2", f"{label}:{fname}", okf, why, b.loc(u["sp"]), key=f"R2:{label}:{fname}")
+                    seen_rows.add(row)
+                    if not (isinstance(row, tuple) and row and row[0] == "agg"):
+                        rep.ob("R2", f"{label}:row-shape", False, f"pushed value is not a row literal: {show(row)[:80]}", rsite, key=f"R2:{label}:row-shape")
+                        continue
+                    want_variant = "Sell" if names == ["Sell"] else "Buy"
+                    rep.ob("R2", f"{label}:row-kind", row[2] == want_variant,
+                           f"{label} row becomes a {row[2].upper()} line" if row[2] == want_variant else
+                           f"{label} input row is emitted as CgtTransaction::{row[2]}", rsite, key=f"R2:{label}:row-kind")
+                    for fname, fterm in row[3]:
+                        if fname == "comment":
+                            continue
+                        okf, why = _field_prov(fname, fterm, names)
+                        rep.ob("R2", f"{label}:{fname}", okf, why, rsite, key=f"R2:{label}:{fname}")
         elif names == ["NonCgt"] or "StockSplit" in names:
-            inc = any(c in arm for c in counted)
+            inc = bool(cont) and all(any("skip" in show(c_[0]) for c_ in a.counts) for a in cont)
             rep.ob("R2", f"{label}:counted", inc, "skipped row is counted" if inc else
-                   f"{label} rows are dropped without incrementing the skipped count", b.loc(_first_sp(b, tgt)), key=f"R2:{label}:counted")
+                   f"{label} rows are dropped without incrementing the skipped count", site, key=f"R2:{label}:counted")
     # dividends: amount from the row, withholding taken (consumed) from the first-pass map under the row's own (date, symbol)
-    for j, u, r in pushes:
-        row = tb.operand(u["args"][1])
-        if _is_variant(row, "Dividend"):
-            f = dict(row[3])
-            tax = f.get("tax")
-            amt = f.get("amount")
-            taken = [x for x in subterms(tax) if isinstance(x, tuple) and x and x[0] == "call" and ("HashMap" in x[1] or "BTreeMap" in x[1])]
-            consumed = any(parse_callee(x[1])[2] in ("remove", "remove_entry") for x in taken)
-            key_ok = any(".date" in show(x[2][1]) and ".symbol" in show(x[2][1]) for x in taken if len(x[2]) == 2)
-            rep.ob("R2", "dividend:withholding-consumed-once", consumed and key_ok,
-                   "same-day withholding is removed from the map when it is attached to a dividend row (emitted at most once), keyed by the row's date and symbol"
-                   if consumed and key_ok else
-                   f"the dividend's tax is {show(tax)[:70]}: the withholding entry is not consumed (or not keyed by the row's date+symbol), "
-                   "so several dividend rows of one symbol/date each carry the full withholding and the total is inflated",
-                   b.loc(u["sp"]), key="R2:dividend:withholding-once")
-            a_ok = any(isinstance(x, tuple) and x and x[0] == "call" and parse_callee(x[1])[2] == "abs" for x in subterms(amt)) and "amount" in show(amt)
-            rep.ob("R2", "dividend:amount-from-row", a_ok, "dividend total is the row's own |Amount|" if a_ok else f"dividend amount is {show(amt)[:60]}",
-                   b.loc(u["sp"]), key="R2:dividend:amount")
+    seen_div = set()
+    for a in alts:
+        for kind, vec, row, rsite, ety in rows_of(a):
+            if kind == "push" and _is_variant(row, "Dividend") and row not in seen_div:
+                seen_div.add(row)
+                f = dict(row[3])
+                tax = f.get("tax")
+                amt = f.get("amount")
+                taken = [x for x in subterms(tax) if isinstance(x, tuple) and x and x[0] == "call" and ("HashMap" in x[1] or "BTreeMap" in x[1])]
+                consumed = any(parse_callee(x[1])[2] in ("remove", "remove_entry") for x in taken)
+                key_ok = any(".date" in show(x[2][1], 0) and ".symbol" in show(x[2][1], 0) for x in taken if len(x[2]) == 2)
+                rep.ob("R2", "dividend:withholding-consumed-once", consumed and key_ok,
+                       "same-day withholding is removed from the map when it is attached to a dividend row (emitted at most once), keyed by the row's date and symbol"
+                       if consumed and key_ok else
+                       f"the dividend's tax is {show(tax)[:70]}: the withholding entry is not consumed (or not keyed by the row's date+symbol), "
+                       "so several dividend rows of one symbol/date each carry the full withholding and the total is inflated",
+                       rsite, key="R2:dividend:withholding-once")
+                a_ok = any(isinstance(x, tuple) and x and x[0] == "call" and parse_callee(x[1])[2] == "abs" for x in subterms(amt)) and "amount" in show(amt, 0)
+                rep.ob("R2", "dividend:amount-from-row", a_ok, "dividend total is the row's own |Amount|" if a_ok else f"dividend amount is {show(amt)[:60]}",
+                       rsite, key="R2:dividend:amount")
+    if not seen_div:
+        rep.unresolved("R2", "dividend-rows", "no Dividend row is pushed by the row loop")
     # first pass: withholdings accumulate |amount| under (date, symbol)
     from rules.c08 import _R
     rg = _R(F).region(b, depth=1)
@@ -211,18 +231,30 @@ def arm_accounting(F, rep):
                 acc_ok = True
     rep.ob("R2", "withholding:accumulated", acc_ok, "withholding rows are summed (absolute value) per key in the first pass" if acc_ok else
            "no accumulation of withholding amounts found", b.loc(), key="R2:withholding:accumulate")
-    # Unknown rows: comment + warning + count  (match on the outer item enum)
-    unk = [(j, u) for j, u, r in pushes if _is_variant(tb.operand(u["args"][1]), "Comment")]
-    rep.ob("R2", "unknown/unsupported→comment", len(unk) >= 2, f"{len(unk)} sites surface unsupported rows as comments" if len(unk) >= 2 else
+    # rows surfaced as comments (unknown actions, unsupported splits): comment + count; unknown rows also warn
+    def comment_rows(a):
+        out = []
+        for kind, vec, row, rsite, ety in rows_of(a):
+            if kind == "push" and _is_variant(row, "Comment"):
+                out.append((row, rsite))
+            if kind == "extend" and any(_is_variant(x, "Comment") for x in subterms(expand_closures(F, row))):
+                out.append((row, rsite))
+        return out
+    com_paths = [a for a in alts if a.exit == "stop" and comment_rows(a)]
+    n_sites = len({rs for a in com_paths for _, rs in comment_rows(a)})
+    rep.ob("R2", "unknown/unsupported→comment", len({label_of(a) for a in com_paths}) >= 2,
+           f"{len({label_of(a) for a in com_paths})} kinds of rows are surfaced as comments" if len({label_of(a) for a in com_paths}) >= 2 else
            "unknown or unsupported rows are no longer surfaced as comments", b.loc(), key="R2:unknown:comment")
-    warn_pushes = [j for j, u in b.calls() if parse_callee(u["callee"])[2] == "push" and "String" in " ".join(u.get("aty") or [])
-                   and (root_of_operand(b, u["args"][0]) or (None,))[0] is not None and b.local_name((root_of_operand(b, u["args"][0]))[0]) == "warnings"]
-    for j, u in unk:
-        arm_blocks = _same_arm(b, j)
-        has_count = any(c in arm_blocks for c in counted)
-        rep.ob("R2", f"comment@{b.loc(u['sp']).split(':')[-2]}:counted", has_count,
+    for lb in sorted({label_of(a) for a in com_paths}):
+        ps = [a for a in com_paths if label_of(a) == lb]
+        has_count = all(any("skip" in show(c_[0]) for c_ in a.counts) for a in ps)
+        rep.ob("R2", f"comment@{lb}:counted", has_count,
                "row surfaced as a comment is also counted as skipped" if has_count else "comment row is not counted as skipped",
-               b.loc(u["sp"]), key="R2:comment:counted")
+               comment_rows(ps[0])[0][1], key="R2:comment:counted")
+    unk = [a for a in alts if a.exit == "stop" and label_of(a) == "Unknown"]
+    warned = bool(unk) and all(any("String" in p[4] and "CgtTransaction" not in p[4] for p in a.pushes) for a in unk)
+    rep.ob("R2", "unknown:warned", warned, "an unknown action produces a warning" if warned else
+           "an unknown action is not reported in the warnings", b.loc(), key="R2:unknown:warning")
     # deferred cancellations
     for cb in conv_bodies(F):
         rm = [(j, u) for j, u in cb.calls() if u["callee"].endswith("Vec::<T, A>::remove")]
@@ -501,21 +533,41 @@ def output_pushes(F, rep, lf):
             if ncf >= 2:
                 headers.add(hb.id)
     n = 0
-    spushes = [(i, t, tb.operand(t["args"][1]), root_of_operand(b, t["args"][0])) for i, t in b.calls()
-               if parse_callee(t["callee"])[2] == "push" and "alloc::string::String" in (t.get("aty") or ["", ""])[1]]
-    # the output vector is the one that receives formatter-produced lines; other Vec<String>s (e.g. the list of source file
+    from rules.c08 import _R
+    rg = _R(F).region(b, depth=1)
+    groups = {}
+    for it in rg.items:
+        t = it["term"]
+        m = parse_callee(t["callee"])[2]
+        aty = t.get("aty") or ["", ""]
+        if m in ("push", "extend") and "Vec<alloc::string::String" in aty[0]:
+            hb = it["body"]
+            if hb.id in headers or hb.id in lf:
+                continue        # the header builder's own lines are checked below
+            r = root_of_operand(hb, t["args"][0])
+            v = it["tb"].operand(t["args"][1])
+            groups.setdefault((hb.id, r[0] if r else None), []).append((hb, t, m, v))
+
+    def producers(v):
+        """functions whose String results make up the value: the callee itself, or the function mapped over an iterator"""
+        if isinstance(v, tuple) and v and v[0] == "call" and v[1] in F.bodies:
+            return [v[1]]
+        fs = [x[1] for x in subterms(v) if isinstance(x, tuple) and x and x[0] == "fn"]
+        return fs
+    # the output vector(s) are those that receive formatter-produced lines; other Vec<String>s (e.g. the list of source file
     # names handed to the header) are not DSL output
-    out_vecs = {r[0] for i, t, v, r in spushes if r and isinstance(v, tuple) and v and v[0] == "call" and (v[1] in lf or v[1] in headers)}
-    for i, t, v, r in spushes:
-        if r and out_vecs and r[0] not in out_vecs:
+    for key, items in groups.items():
+        if not any(p in lf or p in headers for hb, t, m, v in items for p in producers(v)):
             continue
-        n += 1
-        src = v[1] if isinstance(v, tuple) and v and v[0] == "call" else None
-        ok = src in lf or src in headers
-        rep.ob("R3", f"convert:push:{(src or show(v))[-40:]}", ok,
-               f"output line produced by {src.split('::')[-1]}" if ok else
-               f"a raw string ({show(v)[:60]}) is pushed to the DSL output without a line formatter", b.loc(t["sp"]),
-               key=f"R3:convert:raw-line:{(src or 'expr')}")
+        for hb, t, m, v in items:
+            n += 1
+            ps = producers(v)
+            ok = bool(ps) and all(p in lf or p in headers for p in ps)
+            src = ps[0] if ps else None
+            rep.ob("R3", f"convert:push:{(src or show(v))[-40:]}", ok,
+                   f"output line produced by {src.split('::')[-1]}" if ok else
+                   f"a raw string ({show(v)[:60]}) is pushed to the DSL output without a line formatter", hb.loc(t["sp"]),
+                   key=f"R3:convert:raw-line:{(src or 'expr')}")
     rep.count("output_line_pushes", n)
     if n < 4:
         rep.unresolved("R3", "pushes", f"only {n} output-line pushes found in convert")
